@@ -9,7 +9,7 @@
 pub mod data;
 
 use data::{build_x, case_strategy, err_cases, orthonormal_rows, Case, ErrCase, Layout, Shape};
-use linfa::traits::{Fit, Predict, Transformer};
+use linfa::traits::{Fit, Predict, PredictInplace, Transformer};
 use linfa::DatasetBase;
 use linfa_reduction::Pca;
 use ndarray::{s, Array1, Array2, ArrayView2, ShapeBuilder};
@@ -756,6 +756,75 @@ pub fn check_pca(c: &Case, obs: &mut Obs) {
             }
         }
     }
+    // entry point `predict_inplace`: the projection written into a caller-supplied buffer must not depend on what
+    // the buffer held before — (a) a junk-filled buffer (large finite values or NaN, row- or column-major),
+    // (b) one buffer re-used for two consecutive batches of the records
+    if z_pred.dim() == (n, kk) {
+        let score_tol = |i: usize, j: usize| -> f64 {
+            let scale: f64 = (0..p).map(|t| (x[i][t].abs() + mu[t].abs()) * comps[j][t].abs()).sum();
+            FORMULA_EPS * scale + 1e-300
+        };
+        let junk_nan = c.frame_seed & 1 == 1;
+        let junk_f = c.frame_seed & 2 == 2;
+        obs.class(if junk_nan { "predict_inplace_junk_nan" } else { "predict_inplace_junk_finite" });
+        obs.class(if junk_f { "predict_inplace_buffer_col_major" } else { "predict_inplace_buffer_row_major" });
+        let fill = |(i, j): (usize, usize)| if junk_nan { f64::NAN } else { 3.0e7 + (i * 31 + j * 7) as f64 };
+        let mut buf: Array2<f64> = if junk_f { Array2::from_shape_fn((n, kk).f(), fill) } else { Array2::from_shape_fn((n, kk), fill) };
+        if obs.call("predict_inplace", || model.predict_inplace(&rec.view(), &mut buf)).is_some() {
+            if obs.ensure(buf.dim() == (n, kk), "pca:score-shape", || format!("predict_inplace leaves a buffer of shape {:?}", buf.dim())) {
+                let mut worst: Option<(usize, usize, f64)> = None;
+                for i in 0..n {
+                    for j in 0..kk {
+                        if !((buf[(i, j)] - z[i][j]).abs() <= score_tol(i, j)) && worst.is_none() {
+                            worst = Some((i, j, buf[(i, j)]));
+                        }
+                    }
+                }
+                if let Some((i, j, got)) = worst {
+                    obs.fail(
+                        "pca:predict-inplace-dirty-buffer",
+                        format!(
+                            "predict_inplace into a buffer pre-filled with {} gives score[{i}][{j}] = {got}, predict gives {}",
+                            if junk_nan { "NaN".to_string() } else { format!("{}", fill((i, j))) },
+                            z[i][j]
+                        ),
+                    );
+                }
+            }
+        }
+        // (b) two batches through one buffer
+        let m = n / 2;
+        if m >= 1 {
+            obs.class("predict_inplace_reused_two_batches");
+            let b1 = xa.slice(s![..m, ..]);
+            let b2 = xa.slice(s![m..2 * m, ..]);
+            let mut buf = model.default_target(&b1);
+            let ok1 = obs.call("predict_inplace", || model.predict_inplace(&b1, &mut buf)).is_some();
+            let first: Array2<f64> = buf.clone();
+            let ok2 = ok1 && obs.call("predict_inplace", || model.predict_inplace(&b2, &mut buf)).is_some();
+            if ok2 && first.dim() == (m, kk) && buf.dim() == (m, kk) {
+                let mut worst: Option<(usize, usize, usize, f64, f64)> = None;
+                for i in 0..m {
+                    for j in 0..kk {
+                        if !((first[(i, j)] - z[i][j]).abs() <= score_tol(i, j)) && worst.is_none() {
+                            worst = Some((1, i, j, first[(i, j)], z[i][j]));
+                        }
+                        if !((buf[(i, j)] - z[m + i][j]).abs() <= score_tol(m + i, j)) && worst.is_none() {
+                            worst = Some((2, i, j, buf[(i, j)], z[m + i][j]));
+                        }
+                    }
+                }
+                if let Some((batch, i, j, got, want)) = worst {
+                    obs.fail(
+                        "pca:predict-inplace-reused-buffer",
+                        format!("one buffer used for two batches of {m} rows: batch {batch}, score[{i}][{j}] = {got}, predict on the full records gives {want}"),
+                    );
+                }
+            } else if ok2 {
+                obs.fail("pca:score-shape", format!("predict_inplace on a batch of {m} rows leaves buffers {:?} / {:?}", first.dim(), buf.dim()));
+            }
+        }
+    }
     let zcov = covariance(&z, 1.0);
     if !spectral {
         // consequences of the solver failure reported above
@@ -969,6 +1038,7 @@ pub fn property() -> Property {
             "a panic of fit whose payload is linfa-linalg's `NaN values in array` AND whose recorded site is linfa-linalg .../eigh.rs is signature pca:solver-breakdown:nan-panic; any other panic (other payload or other site) is panic:fit".into(),
             "exactly k components are expected inside the design domain (the solver's rank cut-off pinned by test_explained_variance_cutoff is far below it)".into(),
             "layouts: the fitted model is judged by the same obligations whatever the layout; predict / transform of the same records in each of the other five layouts must equal the main scores within the formula tolerance (signature pca:predict-layout)".into(),
+            "entry points: besides predict and transform, predict_inplace is called with a junk-filled buffer (large finite values or NaN, row- or column-major, chosen by the case) and with one buffer re-used for two consecutive batches; the scores must equal those of predict within the formula tolerance (signatures pca:predict-inplace-dirty-buffer, pca:predict-inplace-reused-buffer)".into(),
             "trusted base: ndarray, vengine::num::{covariance, jacobi_eigh, col_means}".into(),
         ],
         subs: vec![
@@ -986,6 +1056,9 @@ pub fn property() -> Property {
                     "layout_col_major_unequal_column_means",
                     "fit_DatasetView",
                     "small_magnitude_judged",
+                    "predict_inplace_junk_finite",
+                    "predict_inplace_junk_nan",
+                    "predict_inplace_reused_two_batches",
                 ]),
             enum_sub("errors", |t: Tier| err_cases(t), check_errors).chunks(2),
         ],
